@@ -191,6 +191,12 @@ class RealRun:
         self.nontrivial = set()
 
     def apply(self, act, spec_act=None):
+        if "chase" not in act and any(getattr(c, "chasing", False) and c.chain for c in self.world.clients.values()):
+            # a chasing application: how many of its pending get_*() calls it issues right after this step (before the
+            # eventual queue runs) is the schedule's choice
+            if not hasattr(self, "chase_rng"):
+                self.chase_rng = random.Random(self.tid * 7919 + 13)
+            act = dict(act, chase=self.chase_rng.choice([0, 0, 1, 1, 2]))
         self.tracker.before(act)
         if act["a"] in ("Dup", "SwapS2C"):
             self.tracker._dupswap = True
@@ -277,7 +283,9 @@ C01_CODES = [("4-alpha-beta", "4-alpha-beta"), ("4-alpha-beta", "4-alpha-betb"),
              ("4-\ufb01sh-cake", "4-fish-cake"), ("4-x\u00b2-y", "4-x2-y"), ("4-\uff41lpha-beta", "4-alpha-beta"),
              ("4-\u212bngstrom-a", "4-\u00c5ngstrom-a")]
 C01_PURPOSES = [("wormhole:test", 32), ("other", 32), ("wormhole:test", 16), ("\u00fcn\u00efcode", 64), ("", 1),
-                ("\ufb01le", 32), ("file", 32)]
+                ("\ufb01le", 32), ("file", 32),
+                # purposes that are not in NFC form as passed (decomposed accent, ANGSTROM SIGN): both APIs must treat them alike
+                ("cafe\u0301", 32), ("\u212bngstrom", 16), ("\u1e9b\u0323", 57)]
 
 
 def version_before_pake(run, victims=("A",)):
@@ -670,6 +678,45 @@ def c18_outstanding_case(tid, n, kinds, peer):
     return run, False, drained
 
 
+def c18_chase_case(tid, how, when):
+    """A Deferred-mode application that has get_code() outstanding and issues get_unverified_key() / get_verifier() /
+    get_versions() right after the call (or the delivery) that produces the values - before the eventual queue has run.
+    how: "set" (set_code with the peer's pake already waiting), "input" (input_code + helper, same), "deliver" (the
+    peer's pake and version arrive afterwards).  when: how many gets are issued at the critical step."""
+    run = RealRun(tid, "c18-chase", modes={"A": "deferred-chasing", "B": "delegated"})
+    w = run.world
+    for c in ("A", "B"):
+        run.apply({"a": "ConnOpen", "c": c, "chase": 0})
+    run.apply({"a": "AppSetCode", "c": "B", "code": "4-alpha-beta", "chase": 0})
+    run.apply({"a": "AppSend", "c": "B", "data": b"m:B:0".hex(), "chase": 0})
+    if how != "deliver":
+        for _ in range(60):
+            acts = [a for a in w.enabled(faults=False) if a["a"] in ("Serve", "Deliver")]
+            if not acts:
+                break
+            run.apply(dict(acts[0], chase=0))
+    if how == "input":
+        run.apply({"a": "AppInput", "c": "A", "chase": 0})
+        run.apply({"a": "AppHelper", "c": "A", "m": "choose_nameplate", "args": ["4"], "chase": 0})
+        for _ in range(60):
+            acts = [a for a in w.enabled(faults=False) if a["a"] in ("Serve", "Deliver")]
+            if not acts:
+                break
+            run.apply(dict(acts[0], chase=0))
+        run.apply({"a": "AppHelper", "c": "A", "m": "choose_words", "args": ["alpha-beta"], "chase": when})
+    else:
+        run.apply({"a": "AppSetCode", "c": "A", "code": "4-alpha-beta", "chase": when})
+    for _ in range(200):
+        acts = [a for a in w.enabled(faults=False)]
+        if not acts:
+            break
+        run.apply(dict(acts[0], chase=when if how == "deliver" else 1))
+    for _ in range(5):
+        run.apply({"a": "AppGet", "c": "A", "kind": "welcome", "chase": 1})
+    drained = run.drain()
+    return run, False, drained
+
+
 def c02_reconnect_replay_case(tid, victim, keep, order):
     """After an honest exchange the server drops the victim's connection; when the client has reconnected and re-opened
     its mailbox, the server replays the stored messages of the peer selectively (`keep`: the phases it delivers again) and
@@ -855,7 +902,7 @@ def env_goal(run, drained):
         if a["a"] in HOSTILE or (a["a"] == "ConnOpen" and a.get("welcome_error")):
             return False
     w = run.world
-    if any(getattr(c, "lazy", False) for c in w.clients.values()):
+    if any(getattr(c, "lazy", False) or getattr(c, "chasing", False) for c in w.clients.values()):
         return False
     return len(w.clients) == 2 and all(getattr(c, "code_used", None) for c in w.clients.values()) and run.tracker.codes_match()
 
@@ -867,6 +914,9 @@ def random_real_walk(tid, rng, prop, steps=60):
     if (prop == "C18" and rng.random() < 0.4) or (prop in ("C03", "C09", "C02") and rng.random() < 0.25):
         # a Deferred-mode application that does not ask for messages as they come: they wait in the observer's buffer
         modes = {"A": "deferred-lazy", "B": "delegated"}
+    elif prop == "C18" and rng.random() < 0.35:
+        # ... or one that asks for each value in turn at moments of its own choosing (mbworld.Client.chase)
+        modes = {"A": "deferred-chasing", "B": "delegated"}
     run = RealRun(tid, "random", modes=modes)
     w = run.world
     budget = {"Drop": rng.choice([0, 1, 2]), "Dup": rng.choice([0, 1]), "SwapS2C": rng.choice([0, 1]),
@@ -1094,7 +1144,7 @@ def binding_demo():
         while len(traces) < 6:
             tid += 1
             run_, goal, drained = random_real_walk(tid, rng, "C09", steps=40)
-            lazy = any(c.lazy for c in run_.world.clients.values())
+            lazy = any(c.lazy or getattr(c, "chasing", False) for c in run_.world.clients.values())
             run_.finish(drained, goal=goal)
             if len(run_.lines) >= 15 and not lazy:
                 traces.append(run_.lines)
@@ -1405,6 +1455,17 @@ def run_pipeline(prop, tier, v, quick):
                             continue
                         runs[tid] = run_
                         records.append(run_.finish(drained, goal=False))
+            for how in ("set", "input", "deliver"):
+                for when in (1, 2, 3, 4):
+                    tid += 1
+                    n += 1
+                    try:
+                        run_, goal, drained = c18_chase_case(tid, how, when)
+                    except Exception as e:
+                        cov.setdefault("family_errors", []).append("chase %s %d: %r" % (how, when, e))
+                        continue
+                    runs[tid] = run_
+                    records.append(run_.finish(drained, goal=False))
             for how in ("happy", "wrong", "pending", "pending3"):
                 for k_ in range(0, 4):
                     for j_ in range(0, k_ + 1):
@@ -1425,7 +1486,7 @@ def run_pipeline(prop, tier, v, quick):
             tid += 1
             run_, goal, drained = random_real_walk(tid, rng, prop, steps=rng.choice([25, 40, 60]))
             runs[tid] = run_
-            if any(c.lazy for c in run_.world.clients.values()):
+            if any(c.lazy or getattr(c, "chasing", False) for c in run_.world.clients.values()):
                 nlazy += 1          # the model's application takes messages as they come: not trace-validated
             else:
                 lines += run_.lines
